@@ -55,6 +55,8 @@ var libWritesArgs = map[string]bool{
 }
 
 func init() {
+	heapSorts["Lib#content"] = "(Array Int Str)"
+	heapSorts["Lib#rscur"] = "(Array Int Int)"
 	libModels = map[string]libModel{
 		"errors.New":        modelNewError,
 		"fmt.Errorf":        modelNewError,
